@@ -289,7 +289,9 @@ impl<'a> WarpView<'a> {
         self.out_index.get(node_ix).map_or(&[], |range| {
             let start = range.start() as usize;
             let len = range.len() as usize;
-            self.out_edges.get(start..start + len).unwrap_or(&[])
+            self.out_edges
+                .get(start..start.saturating_add(len))
+                .unwrap_or(&[])
         })
     }
 
@@ -302,7 +304,9 @@ impl<'a> WarpView<'a> {
         self.node_atts_index.get(node_ix).map_or(&[], |range| {
             let start = range.start() as usize;
             let len = range.len() as usize;
-            self.node_atts.get(start..start + len).unwrap_or(&[])
+            self.node_atts
+                .get(start..start.saturating_add(len))
+                .unwrap_or(&[])
         })
     }
 
@@ -315,7 +319,9 @@ impl<'a> WarpView<'a> {
         self.edge_atts_index.get(edge_ix).map_or(&[], |range| {
             let start = range.start() as usize;
             let len = range.len() as usize;
-            self.edge_atts.get(start..start + len).unwrap_or(&[])
+            self.edge_atts
+                .get(start..start.saturating_add(len))
+                .unwrap_or(&[])
         })
     }
 
@@ -333,7 +339,7 @@ impl<'a> WarpView<'a> {
         let off = att.blob_off() as usize;
         let len = att.blob_len() as usize;
 
-        self.blobs.get(off..off + len)
+        self.blobs.get(off..off.saturating_add(len))
     }
 
     /// Returns the raw blob section.
